@@ -406,12 +406,12 @@ template<class T> static void fault_mode(const Args &A, Mode md, unsigned stride
 	for (unsigned i = 0; i < 3; i++) { special(z, (variant + i * 3) % 7, md.e); if (variant % 2) gen_bits(z, 1 + gen().below(80)); s.send(z); }
 	mpz_clear(z);
 	std::string w = s.wire();
-	auto trial = [&](const std::string &t, const std::string &what, bool strict = false) {
+	auto trial = [&](const std::string &t, const std::string &what, bool strict = false, bool ivreg = false) {
 		std::vector<Ev> evs; evs.push_back({'F', t}); evs.push_back({'C', ""}); evs.push_back({'E', ""});
 		for (unsigned i = 0; i < 12; i++) evs.push_back({'C', ""});
 		std::vector<std::string> del = run_recv<T>(md, evs);
 		if (md.a && !is_prefix(del, s.sent))
-			propfail("tamper-" + md.tok(), what + ": sent " + vtok(s.sent) + " delivered " + vtok(del) + " wire " + xb(w) + " tampered " + xb(t));
+			propfail(ivreg ? std::string("tamper-iv") : "tamper-" + md.tok(), what + (ivreg ? " mode " + md.tok() : std::string()) + ": sent " + vtok(s.sent) + " delivered " + vtok(del) + " wire " + xb(w) + " tampered " + xb(t));
 		if (md.a && strict && t != w && del.size() == s.sent.size())
 			propfail("tamper-complete-" + md.tok(), what + ": all messages delivered although the wire was modified: " + xb(t));
 	};
@@ -419,13 +419,15 @@ template<class T> static void fault_mode(const Args &A, Mode md, unsigned stride
 		if (stride > 1 && (o % stride) != (variant % stride)) continue;
 		// the IV of a CTR ("chunked") link is sent but not used by the receiver: changing it changes nothing
 		bool ivfree = md.ctr() && o < s.ivbytes.size();
+		// the IV of a CFB link is used but not covered by the MAC (known finding tamper-iv)
+		bool ivreg = md.e && !md.ctr() && o < s.ivbytes.size();
 		if (o < w.size()) {
-			std::string t = w; t[o] ^= (char)(1u << gen().below(8)); trial(t, "flip@" + std::to_string(o), !ivfree);
-			t = w; if (t[o] != '\n') { t[o] = '\n'; trial(t, "newline@" + std::to_string(o), !ivfree); }
-			t = w; t.erase(o, 1); trial(t, "delete@" + std::to_string(o), o + 1 < w.size());
+			std::string t = w; t[o] ^= (char)(1u << gen().below(8)); trial(t, "flip@" + std::to_string(o), !ivfree, ivreg);
+			t = w; if (t[o] != '\n') { t[o] = '\n'; trial(t, "newline@" + std::to_string(o), !ivfree, ivreg); }
+			t = w; t.erase(o, 1); trial(t, "delete@" + std::to_string(o), o + 1 < w.size(), ivreg);
 		}
-		std::string t = w; t.insert(t.begin() + o, (char)gen().below(256)); trial(t, "insert@" + std::to_string(o), o < w.size());
-		if (gen().below(4) == 0) { t = w; t.insert(t.begin() + o, '\n'); trial(t, "insertnl@" + std::to_string(o), o < w.size()); }
+		std::string t = w; t.insert(t.begin() + o, (char)gen().below(256)); trial(t, "insert@" + std::to_string(o), o < w.size(), ivreg);
+		if (gen().below(4) == 0) { t = w; t.insert(t.begin() + o, '\n'); trial(t, "insertnl@" + std::to_string(o), o < w.size(), ivreg); }
 	}
 	// record level: duplicate (replay), swap (reorder), remove, insert a forged record
 	std::vector<std::string> P = s.pieces;
